@@ -20,7 +20,8 @@ P<i>; N = the OS thread created inside the `create` call of this life; C = the a
   E 20    <root pool> X.schedU       by C in revive  rPush                       E 20 P<i> <unit>                   push
   A store X+state           RUNNING  by C in revive  rPub                        TERMINATED by N                    nPubTerm
   A load  X+state                    by C after the context join of its join     jPub 0|1     any other             getState 0|1
-  E 5 X.schedU (main scheduler starts) nRoot         E 6 X.schedU (its function returned)  nFinish
+  E 5 X.schedU (main scheduler starts) nRoot 0       E 6 X.schedU (its function returned)  nFinish
+  E 7 X.schedU (cancelled by ABTI_ythread_schedule before it ever ran)   nRoot 1
   S xl unit X<i> k                   nRun
   M lock / R condwait / R condret + M lock / M unlock / W cond on X+ctx.state_lock / state_cond
                                      lock / wait / relock / unlock / signal  <T|C>  with the context state word logged
@@ -146,6 +147,20 @@ def project(path):
                         "skip_unlock": set(), "condret": set(), "cause": None}
                 emit(x, "init", ln)
                 pr.stats["lives"] += 1
+                # the native thread may have popped and started the main scheduler before the stream had a name in the
+                # trace: then no E 5 / E 7 of this thread on X.schedU follows (a start after a revive is always logged)
+                seen = False
+                for ln2, w2 in raw[i + 1:]:
+                    if w2[0] == "E" and len(w2) >= 7 and w2[3] in ("5", "7") and w2[4] == x + ".schedU":
+                        seen = S[x]["ntid"] is not None and int(w2[1]) == S[x]["ntid"]
+                        break
+                    if w2[0] == "S" and len(w2) >= 7 and w2[3] == "xl" and w2[4] in ("ret",) and w2[6] == "revive" and w2[7] == x:
+                        break
+                    if w2[0] == "U" and len(w2) >= 2 and w2[1] == x:
+                        break
+                if not seen:
+                    emit(x, "nRoot 0", ln)
+                    pr.stats["main_scheduler_started_before_the_stream_was_named"] += 1
             elif k == "ret":
                 a, op, x = int(txt[2]), txt[3], txt[4]
                 inflight.pop(a, None)
@@ -282,10 +297,12 @@ def project(path):
                         fl = inflight.get(act) if act is not None else None
                         if x in S and fl and fl[0] == x and fl[1] == "revive":
                             emit(x, "rPush", ln)
-            elif kind in (5, 6) and p1.endswith(".schedU"):
+            elif kind in (5, 6, 7) and p1.endswith(".schedU"):
                 x = p1.split(".")[0]
                 if x in S and x != "X0" and tid == S[x]["ntid"]:
-                    emit(x, "nRoot" if kind == 5 else "nFinish", ln)
+                    emit(x, {5: "nRoot 0", 6: "nFinish", 7: "nRoot 1"}[kind], ln)
+                    if kind == 7:
+                        pr.stats["main_scheduler_cancelled_before_it_started"] += 1
             continue
         if t in ("M", "R", "W") and len(w) >= 4:
             tid, what, obj = int(w[1]), w[2], w[3]
